@@ -23,7 +23,12 @@ Definition atom_sem (c : clause) (v : version) : bool := clause_sem c v.
    c is the stored clause (reflected operator, literal); only meaningful for a FINAL literal (clause_sem models final candidates). *)
 Definition reflect_sop (o : sop) : sop :=
   match o with OpLt => OpGt | OpLe => OpGe | OpGt => OpLt | OpGe => OpLe | o => o end.
-Definition atom_sem_rev (c : clause) (v : version) : bool := clause_sem (mkClause (reflect_sop (c_op c)) v) (c_ver c).
+(* a wildcard literal ("3.8.*" == name) is no candidate version: packaging answers False for == and for != alike *)
+Definition atom_sem_rev (c : clause) (v : version) : bool :=
+  match c_op c with
+  | OpEqStar | OpNeStar => false
+  | _ => clause_sem (mkClause (reflect_sop (c_op c)) v) (c_ver c)
+  end.
 
 (* the zero padding of from_specifier for python_full_version: the release segment is padded to X.Y.Z *)
 Definition pad_release (v : version) : version :=
